@@ -36,6 +36,9 @@ func init() {
 				cfg.CookieDomains = []string{".example.com"}
 			case "two":
 				cfg.CookieDomains = []string{".example.com", ".app.example.com"}
+			case "backend_ok", "backend_fail":
+				// a backend-logout URL is configured: the provider is told about the sign-out (and may answer 500) - the session ends all the same
+				cfg.BackendLogout = true
 			}
 			w, err := vpNewWorld(cfg)
 			if err != nil {
@@ -45,6 +48,9 @@ func init() {
 				return
 			}
 			defer w.close()
+			if vpS(cm, "domains") == "backend_fail" {
+				w.idp.logoutStatus = 500
+			}
 			pad := vpRandPad(1800)
 			nextPad := false
 			w.idp.mutateClaims = func(kind string, cl map[string]interface{}) {
